@@ -15,6 +15,8 @@ CONSTANTS
   EvictingLookup = FALSE
   HonourContext = FALSE
   RejectSeenIds = FALSE
+  RegisterBeforeExistsCheck = @@REGFIRST@@
+  MaxDup = @@MAXDUP@@
   Emit = TRUE
   Only = "@@ONLY@@"
 INIT Init
